@@ -6,7 +6,7 @@ C05 - the generated system is closed, canonical and free of placeholder names.
     (right after the sector exists / after all sectors exist / after full codes were generated early through the public
     LogInfo(), optionally followed by the creation of one more country) and the returned string is embedded in every
     place (other sector's equation, own sector, cash-flow definition, product term, exogenous string, global equation,
-    asset weight, initial-condition target), up to `depth` places per history.
+    two different names in one global equation / exogenous string, asset weight, initial-condition target), up to `depth` places per history.
 
 Oracle on the emitted text, read by the independent reader:
  (a) every left-hand side occurs once; (b) every sector variable appears under <FullCode>__<local>, FullCode = code, or
@@ -42,7 +42,7 @@ ALLOWED_FUNCS = set(dir(math)) | {'float', 'max', 'min', 'sum', 'pow', 'abs', 'r
 ALIAS_RE = re.compile(r'(?<![A-Za-z0-9_])_\d+__[A-Za-z_0-9]*')
 
 PLACES = ['other_var', 'own_var', 'cashflow_eqn', 'product_term', 'cashflow_product', 'exogenous', 'global',
-          'asset_weight', 'ic_target', 'late_setrhs']
+          'asset_weight', 'ic_target', 'late_setrhs', 'global_two_names']
 POINTS = ['early', 'late', 'postcodes']
 VARS = ['Q', 'F', 'INC']
 SRCS = ['HH', 'GOV']
@@ -275,6 +275,12 @@ def build_history(config, point, var, src, places):
             other.SetExogenous('XG', '[1.,]*3 + [' + nm + ',]*3')
         elif p == 'global':
             m.AddGlobalEquation('WEALTH', 'model-level equation', nm + '*2')
+        elif p == 'global_two_names':
+            # two different names (of two sectors) in one model-level equation and in one exogenous string
+            nm2 = other.GetVariableName('F')
+            m.AddGlobalEquation('TOTAL2', 'sum over two sectors', nm + ' + ' + nm2 + ' + ' + nm)
+            other.AddVariable('XG2', 'exogenous with two embedded names', '0.')
+            other.SetExogenous('XG2', '[' + nm + ', ' + nm2 + ', 1., 1., 1., 1.]')
         elif p == 'asset_weight':
             S['HH'].GenerateAssetWeighting({'DEP': '0.2 + 0.*' + nm}, 'MON')
         elif p == 'ic_target':
